@@ -187,10 +187,35 @@ func checkArc(c Case) error {
 	if math.Abs(float64(arc[0].PenX)-startPx) > endTol || math.Abs(float64(arc[0].PenY)-startPy) > endTol {
 		return harness.Violatef("c06/start", "arc starts at pen (%v,%v), expected (%v,%v)", arc[0].PenX, arc[0].PenY, startPx, startPy)
 	}
+	radTol, angTol, extTol := 1e-3, 0.02, 1e-3+64*(1.0/(1<<23))*coordMag/sizePx
 	if illConditioned {
-		illConditionedCount++
-		illByFamily[c.Family]++
-		return nil
+		// Radii that span the chord exactly (a half turn, lambda = 1 up to
+		// rounding) are ill-conditioned only in the square-root sense: the
+		// centre is the chord midpoint up to sqrt(rounding) of the radius. That
+		// family is what circles drawn as two arcs use, so it is still checked,
+		// against the half ellipse centred on the chord midpoint and with
+		// correspondingly wider tolerances; everything else gets no verdict.
+		_, lambda := svgCenter(x1, y1, x2, y2, c.LargeArc, c.Sweep, rx, ry, 2*math.Pi*float64(c.Rot))
+		if math.Abs(lambda-1) > 1e-5 {
+			illConditionedCount++
+			illByFamily[c.Family]++
+			return nil
+		}
+		k := math.Sqrt(math.Max(lambda, 1))
+		phi := 2 * math.Pi * float64(c.Rot)
+		w = Expect{CX: (x1 + x2) / 2, CY: (y1 + y2) / 2, RX: rx * k, RY: ry * k, Phi: phi, Delta: math.Pi}
+		if !c.Sweep {
+			w.Delta = -math.Pi
+		}
+		dx, dy := x1-w.CX, y1-w.CY
+		w.Theta1 = math.Atan2((-math.Sin(phi)*dx+math.Cos(phi)*dy)/w.RY, (math.Cos(phi)*dx+math.Sin(phi)*dy)/w.RX)
+		// the centre sits sqrt(|lambda-1|) of a radius off the chord midpoint, and the
+		// implementation's lambda differs from ours by the pen's rounding relative to the radius
+		pdx := 2 * (1.0 / (1 << 23)) * (math.Abs(x1) + math.Abs(float64(vb[0])))
+		pdy := 2 * (1.0 / (1 << 23)) * (math.Abs(y1) + math.Abs(float64(vb[1])))
+		el := math.Abs(lambda-1) + 2*(pdx+pdy)/math.Min(rx, ry)
+		radTol, angTol, extTol = 1e-3+1.5*math.Sqrt(el), 0.03+3*math.Sqrt(el), 0.03+3*math.Sqrt(el)
+		halfTurnExact++
 	}
 	// samples on the ellipse, parameter monotone from theta1 to theta1+delta
 	cphi, sphi := math.Cos(w.Phi), math.Sin(w.Phi)
@@ -212,14 +237,14 @@ func checkArc(c Case) error {
 			u := (cphi*dx + sphi*dy) / w.RX
 			v := (-sphi*dx + cphi*dy) / w.RY
 			r := math.Hypot(u, v)
-			if math.IsNaN(r) || math.Abs(r-1) > 1e-3 {
+			if math.IsNaN(r) || math.Abs(r-1) > radTol {
 				return harness.Violatef("c06/off-ellipse", "segment %d, t=%.3f: point (%v,%v) is at normalised radius %v from the centre (%v,%v) of the requested ellipse (radii %v,%v), expected 1", si, t, vx, vy, r, w.CX, w.CY, w.RX, w.RY)
 			}
 			a := math.Atan2(v, u)
 			// unwrap next to prev
 			a += 2 * math.Pi * math.Round((prev-a)/(2*math.Pi))
 			if first {
-				if math.Abs(a-w.Theta1) > 0.02 {
+				if math.Abs(a-w.Theta1) > angTol {
 					return harness.Violatef("c06/start-angle", "arc starts at ellipse parameter %v, expected %v", a, w.Theta1)
 				}
 				first = false
@@ -229,13 +254,13 @@ func checkArc(c Case) error {
 			prev = a
 		}
 	}
-	if math.Abs(prev-(w.Theta1+w.Delta)) > 1e-3+64*(1.0/(1<<23))*coordMag/sizePx {
+	if math.Abs(prev-(w.Theta1+w.Delta)) > extTol {
 		return harness.Violatef("c06/extent", "arc sweeps from %v to %v (extent %v), expected extent %v (largeArc=%v sweep=%v)", w.Theta1, prev, prev-w.Theta1, w.Delta, c.LargeArc, c.Sweep)
 	}
 	return nil
 }
 
-var illConditionedCount int64
+var illConditionedCount, halfTurnExact int64
 var illByFamily = map[string]int64{}
 
 var subArc = harness.Define("arc", "elliptical-arc operations (constructive: centre, radii 0.5-60, rotation, theta1, delta => endpoints and flags; undersized radii with delta=+-pi; zero/negative radii; direct random checked against an independent F.6.5) in absolute and relative form under any viewBox->rectangle map: <= 4 cubics, start at pen, end at mapped endpoint, 9 samples per cubic on the ellipse (1e-3), parameter monotone in the sweep direction with the right extent, zero radius => one LineTo to the mapped endpoint; non-trivial = rotated non-circular ellipse under a non-uniform or off-origin map, or scale-up, or zero radius", checkArc)
@@ -277,7 +302,20 @@ func genConstructive(t *rapid.T) Case {
 	rot := float64(float32(genRot(t)))
 	phi := 2 * math.Pi * rot
 	th1 := rapid.Float64Range(0, 2*math.Pi).Draw(t, "theta1")
-	family := rapid.SampledFrom([]string{"fits", "fits", "fits", "undersized"}).Draw(t, "family")
+	family := rapid.SampledFrom([]string{"fits", "fits", "fits", "undersized", "exact-fit"}).Draw(t, "family")
+	if family == "exact-fit" {
+		// radii that span the chord exactly (a half turn; what a circle drawn as
+		// two arcs uses): values on a coarse grid so that the fit is exact or
+		// off by one rounding either way
+		cx, cy = math.Round(cx), math.Round(cy)
+		rx, ry = math.Round(rx*4)/4+0.25, math.Round(ry*4)/4+0.25
+		if rapid.Bool().Draw(t, "xcircle") {
+			ry = rx
+		}
+		rot = float64(rapid.IntRange(0, 63).Draw(t, "xrot")) / 64
+		phi = 2 * math.Pi * rot
+		th1 = float64(rapid.IntRange(0, 31).Draw(t, "xth1")) * math.Pi / 16
+	}
 	var delta float64
 	k := 1.0
 	if family == "fits" {
@@ -289,6 +327,8 @@ func genConstructive(t *rapid.T) Case {
 			delta = 2.0
 			break
 		}
+	} else if family == "exact-fit" {
+		delta = math.Pi
 	} else {
 		delta = math.Pi
 		k = rapid.Float64Range(0.05, 0.95).Draw(t, "shrink")
@@ -315,7 +355,7 @@ func genConstructive(t *rapid.T) Case {
 	}
 	c.Rot = ops.F32(float32(rot))
 	c.LargeArc = math.Abs(delta) > math.Pi
-	if family == "undersized" {
+	if family == "undersized" || family == "exact-fit" {
 		c.LargeArc = rapid.Bool().Draw(t, "la") // irrelevant for a half ellipse
 	}
 	c.Sweep = delta > 0
@@ -413,7 +453,7 @@ func classify(c Case) (bool, []string) {
 	if c.Want != nil {
 		labels = append(labels, "constructive-expectation")
 	}
-	nt := rotated && nonCircular && (nonUniform || offOrigin) || c.Family == "undersized" || c.Family == "direct-scale-up" || c.Family == "zero-radius"
+	nt := rotated && nonCircular && (nonUniform || offOrigin) || c.Family == "undersized" || c.Family == "exact-fit" || c.Family == "direct-scale-up" || c.Family == "zero-radius"
 	return nt, labels
 }
 
@@ -436,6 +476,7 @@ func TestArcs(t *testing.T) {
 		subArc.Run(t, c)
 	})
 	subArc.Label("ellipse-clauses-skipped:ill-conditioned-under-float32-pen", illConditionedCount)
+	subArc.Label("exact-half-turn-checked-against-chord-midpoint-ellipse", halfTurnExact)
 	for f, n := range illByFamily {
 		subArc.Label("ill-conditioned:family="+f, n)
 	}
